@@ -332,5 +332,148 @@ theorem all_finalized (c : Cfg K S σ) (u0 : S) (trs : List (Tracker K S σ)) (f
   · rw [hk]; exact hfin _ (by unfold finalH; rw [handleAll_ident]; exact hh.ident)
   · rw [hk]; exact hfin _ (by unfold mainHandle; rw [handleAll_ident]; exact hh.ident)
 
+
+/-! ### constant interval `D ≥ dt`: every scheduled time is served exactly once within `dt/2` -/
+
+/-- `nxt` acts on the schedule states `s` with `C s tn` like a `ConstantInterrupts(D)` object whose
+`_t_next` is `tn` (for the concrete interrupt classes: `C s tn := s = Sched.const D tn`) -/
+def ConstLike (nxt : σ → K → σ × Option K) (D : K) (C : σ → K → Prop) : Prop :=
+  ∀ s tn t, C s tn → (nxt s t).2 = some (Interrupts.constNext tn D t) ∧
+    C (nxt s t).1 (Interrupts.constNext tn D t)
+
+theorem constNext_no_catchup' (tn D t : K) (h : t < tn + D) : Interrupts.constNext tn D t = tn + D := by
+  unfold Interrupts.constNext; simp only; rw [if_neg (not_le.mpr h)]
+
+/-- the `k`-th call serves the `k`-th scheduled time, within half a step -/
+def Near (dt D τ0 : K) (k : Nat) (x : K) : Prop := |x - (τ0 + k * D)| ≤ dt / 2
+
+/-- invariant of the loop-head states for the tracker at list position `j` with a constant
+schedule: `m` scheduled times have been served, one call each, in order, each within `dt/2`; the
+pending time is `τ0 + m*D`, not more than `dt/2` in the past (**pending window**); all served
+times lie at least `dt/2` in the past -/
+structure ConstInv (c : Cfg K S σ) (D τ0 : K) (C : σ → K → Prop) (j : Nat) (st : LState K S σ)
+    (m : Nat) : Prop where
+  tr : ∃ tr, st.trs[j]? = some tr ∧ C tr.sched (τ0 + m * D) ∧ tr.due = some (τ0 + m * D)
+  window : st.t - c.dt / 2 ≤ τ0 + m * D
+  near : List.Forall₂ (Near c.dt D τ0) (List.range m) (callsOf j st.trace)
+  before : ∀ k : Nat, k < m → τ0 + k * D ≤ st.t - c.dt / 2
+
+/-- **pending_window_invariant** (one `handle` with tolerance `0 < atol ≤ dt/2` at a state
+satisfying the invariant): the tracker is served iff its pending time is due, then by exactly one
+call within `dt/2` of it and without catch-up (`next = pending + D`); afterwards the pending time
+is at least `atol` in the future, and exactly the scheduled times before `t + atol` have been
+served. -/
+theorem pending_window_invariant (c : Cfg K S σ) (hdt : 0 < c.dt) (D τ0 : K) (hD : c.dt ≤ D)
+    (C : σ → K → Prop) (hC : ConstLike c.nxt D C) (j : Nat) (st : LState K S σ) (m : Nat)
+    (h : ConstInv c D τ0 C j st m) (atol : K) (ha0 : 0 < atol) (ha1 : atol ≤ c.dt / 2) :
+    ∃ m', (m' = m ∨ m' = m + 1) ∧
+      (∃ tr, (handleAll c.nxt atol st.t st.u 0 st.trs).1[j]? = some tr ∧ C tr.sched (τ0 + m' * D) ∧
+        tr.due = some (τ0 + m' * D)) ∧
+      st.t + atol ≤ τ0 + m' * D ∧
+      List.Forall₂ (Near c.dt D τ0) (List.range m')
+        (callsOf j (st.trace ++ (handleAll c.nxt atol st.t st.u 0 st.trs).2.1)) ∧
+      (∀ k : Nat, k < m' → τ0 + k * D < st.t + atol) := by
+  obtain ⟨tr, hj, hs, hdue⟩ := h.tr
+  have hget := handleAll_getElem? c.nxt atol st.t st.u st.trs 0 j tr hj
+  have hcalls := handleAll_callsOf c.nxt atol st.t st.u st.trs j tr hj
+  have hw := h.window
+  by_cases hd : isDue tr.due atol st.t = true
+  · -- due: served now
+    have hd' : τ0 + m * D - atol < st.t := by
+      rw [hdue] at hd; simpa [isDue] using hd
+    obtain ⟨n1, n2⟩ := hC tr.sched (τ0 + m * D) st.t hs
+    have hnc : Interrupts.constNext (τ0 + m * D) D st.t = τ0 + ((m + 1 : Nat) : K) * D := by
+      rw [constNext_no_catchup' _ _ _ (by linarith)]; push_cast; ring
+    refine ⟨m + 1, Or.inr rfl, ?_, ?_, ?_, ?_⟩
+    · refine ⟨served c.nxt st.t st.u tr, by rw [hget, if_pos hd], ?_, ?_⟩
+      · show C (c.nxt tr.sched st.t).1 _
+        rw [← hnc]; exact n2
+      · show (c.nxt tr.sched st.t).2 = _
+        rw [n1, hnc]
+    · push_cast; linarith
+    · rw [callsOf_append, hcalls, if_pos hd, List.range_succ]
+      refine List.rel_append h.near ?_
+      refine List.Forall₂.cons ?_ List.Forall₂.nil
+      show |st.t - (τ0 + m * D)| ≤ c.dt / 2
+      rw [abs_le]; constructor <;> linarith
+    · intro k hk
+      rcases Nat.lt_succ_iff_lt_or_eq.mp hk with h1 | h1
+      · have := h.before k h1; linarith
+      · subst h1; linarith
+  · -- not due
+    have hd' : ¬ τ0 + m * D - atol < st.t := by
+      rw [hdue] at hd; simpa [isDue] using hd
+    refine ⟨m, Or.inl rfl, ⟨tr, by rw [hget, if_neg hd], hs, hdue⟩, by linarith, ?_, ?_⟩
+    · rw [callsOf_append, hcalls, if_neg hd, List.append_nil]; exact h.near
+    · intro k hk
+      have := h.before k hk; linarith
+
+theorem constInv_advance (c : Cfg K S σ) (hdt : 0 < c.dt) (D τ0 : K) (hD : c.dt ≤ D)
+    (C : σ → K → Prop) (hC : ConstLike c.nxt D C) (j : Nat) (st : LState K S σ)
+    (h : ∃ m, ConstInv c D τ0 C j st m) : ∃ m, ConstInv c D τ0 C j (advance c st) m := by
+  obtain ⟨m, h⟩ := h
+  have hh : (half : K) * c.dt = c.dt / 2 := half_mul _
+  obtain ⟨m', _, ⟨tr', hj', hs', hdue'⟩, hp, hnear, hbef⟩ :=
+    pending_window_invariant c hdt D τ0 hD C hC j st m h (half * c.dt) (by rw [hh]; linarith) (by rw [hh])
+  rw [hh] at hp hbef
+  have hmem : tr' ∈ (mainHandle c st).1 := List.mem_of_getElem? hj'
+  have hclip := clip_nextAction_le (mainHandle c st).1 c.tEnd tr' hmem _ hdue'
+  have hn1 := one_le_nsteps st.t (clip (nextAction (mainHandle c st).1) c.tEnd) c.dt
+  have hwin := nsteps_window st.t (clip (nextAction (mainHandle c st).1) c.tEnd) c.dt _ hdt hclip hp
+  have ht : (advance c st).t = st.t + (nsteps st.t (clip (nextAction (mainHandle c st).1) c.tEnd) c.dt : K) * c.dt :=
+    stepperTime_eq _ _ _ hn1
+  have hge : st.t + c.dt ≤ (advance c st).t := by
+    rw [ht]
+    have : (1 : K) ≤ (nsteps st.t (clip (nextAction (mainHandle c st).1) c.tEnd) c.dt : K) := by
+      exact_mod_cast hn1
+    nlinarith
+  refine ⟨m', ⟨tr', hj', hs', hdue'⟩, by rw [ht]; linarith, hnear, ?_⟩
+  intro k hk
+  have := hbef k hk
+  linarith
+
+/-- **served_exactly_once_within_half_step.**  A tracker (list position `j`, any class, any stop
+behaviour, among any other trackers with any schedules) whose schedule is a constant interval
+`D ≥ dt` starting at `τ0 ≥ t_start - dt/2`: its `k`-th call serves its `k`-th scheduled time
+`τ0 + k*D`, at distance at most `dt/2` - no scheduled time is skipped, none is served twice, on
+every path.  If the run reaches the end of the loop, the scheduled times that were served are
+exactly those before `t_final + eps*dt`. -/
+theorem served_exactly_once_within_half_step (c : Cfg K S σ) (hdt : 0 < c.dt) (he0 : 0 < c.eps)
+    (he1 : c.eps ≤ 1 / 2) (D τ0 : K) (hD : c.dt ≤ D) (C : σ → K → Prop) (hC : ConstLike c.nxt D C)
+    (u0 : S) (trs : List (Tracker K S σ)) (j : Nat) (tr0 : Tracker K S σ) (hj : trs[j]? = some tr0)
+    (hs : C tr0.sched τ0) (hdue : tr0.due = some τ0) (hτ : c.tStart - c.dt / 2 ≤ τ0) (fuel : Nat) :
+    ∃ m : Nat,
+      List.Forall₂ (Near c.dt D τ0) (List.range m) (callsOf j (runFuel c u0 trs fuel).trace) ∧
+      ((runFuel c u0 trs fuel).exit.reachedEnd →
+        ∀ k : Nat, τ0 + k * D < (runFuel c u0 trs fuel).tFinal + c.eps * c.dt ↔ k < m) := by
+  have h0 : ∃ m, ConstInv c D τ0 C j (initState c u0 trs) m :=
+    ⟨0, ⟨tr0, hj, by simpa using hs, by simpa using hdue⟩, by simpa [initState] using hτ,
+      by simp [initState, callsOf], by intro k hk; omega⟩
+  obtain ⟨st, ⟨m, hinv⟩, hT, _, _, sh⟩ := run_shape c (fun st => ∃ m, ConstInv c D τ0 C j st m)
+    (fun st h _ _ => constInv_advance c hdt D τ0 hD C hC j st h) u0 trs fuel h0
+  have hD0 : 0 < D := lt_of_lt_of_le hdt hD
+  have hea : c.eps * c.dt ≤ c.dt / 2 := by nlinarith
+  have hea0 : 0 < c.eps * c.dt := mul_pos he0 hdt
+  rcases sh with ⟨he, ht, _⟩ | ⟨hc, ht, _, he⟩ | ⟨hc, r, hr, he, ht, _⟩
+  · refine ⟨m, by rw [ht]; exact hinv.near, ?_⟩
+    intro hre; rw [he] at hre; exact absurd hre (by simp [Exit.reachedEnd])
+  · obtain ⟨m', _, _, hp, hnear, hbef⟩ :=
+      pending_window_invariant c hdt D τ0 hD C hC j st m hinv (c.eps * c.dt) hea0 hea
+    refine ⟨m', by rw [ht]; exact hnear, ?_⟩
+    intro _ k
+    rw [hT]
+    constructor
+    · intro hk
+      by_contra hcon
+      have hmk : (m' : K) ≤ (k : K) := by exact_mod_cast not_lt.mp hcon
+      have : τ0 + (m' : K) * D ≤ τ0 + (k : K) * D := by nlinarith
+      linarith
+    · exact hbef k
+  · have hh : (half : K) * c.dt = c.dt / 2 := half_mul _
+    obtain ⟨m', _, _, _, hnear, _⟩ :=
+      pending_window_invariant c hdt D τ0 hD C hC j st m hinv (half * c.dt) (by rw [hh]; linarith) (by rw [hh])
+    refine ⟨m', by rw [ht]; exact hnear, ?_⟩
+    intro hre; rw [he] at hre; exact absurd hre (by simp [Exit.reachedEnd])
+
 end
 end PdeVerif.Controller
